@@ -14,7 +14,7 @@ func (node *tagImportNode) Execute(ctx *ExecutionContext, writer TemplateWriter)
 	for name, macro := range node.macros {
 		func(name string, macro *tagMacroNode) {
 			ctx.Private[name] = func(args ...*Value) (*Value, error) {
-				return macro.call(ctx, args...)
+				return macro.callGuarded(ctx, args...)
 			}
 		}(name, macro)
 	}
